@@ -1695,9 +1695,21 @@ def strategies():
 
     @st.composite
     def simp_expr(draw):
-        shape = draw(st.sampled_from(['point', 'point', 'special', 'special', 'int', 'int-inf', 'sum', 'lim', 'nested']))
+        shape = draw(st.sampled_from(['point', 'point', 'special', 'special', 'int', 'int-inf', 'sum', 'lim', 'nested',
+                                      'const', 'const']))
         if shape == 'point':
             return draw(pointwise())
+        if shape == 'const':
+            # constants built from irrational atoms with (negative, fractional) powers: the coefficient normal form
+            atoms = st.sampled_from(['pi', 'pi', 'log(2)', 'sin(1)', 'sqrt(2)', 'exp(1)', 'exp(2)', '2', '3', 'atan(2)', 'sqrt(3)'])
+            pw = st.sampled_from(['-3', '-2', '-2', '-3/2', '-1', '-1/2', '1/2', '2', '3', '1/3', '-1/3', '-5/2'])
+            fac = st.one_of(atoms, st.tuples(atoms, pw).map(lambda t: '%s ^ (%s)' % t), st.tuples(atoms, pw).map(lambda t: '%s ^ (%s)' % t))
+            prod = st.lists(st.tuples(st.sampled_from(['*', '*', '/']), fac), min_size=1, max_size=4).map(
+                lambda fs: '1' + ''.join(' %s (%s)' % f for f in fs))
+            c = draw(prod)
+            wrap = draw(st.sampled_from(['%s', '%s', '(%s) * x', 'x / (%s)', '(%s) + (%s)', '(%s) - 1 / pi ^ 2', 'INT x:[0,1]. (%s) * x',
+                                         '(%s) * a + x', 'sqrt(%s)']))
+            return wrap % ((c,) * wrap.count('%s'))
         if shape == 'special':
             sp = draw(st.sampled_from(SPECIAL_FORMS))
             wrap = draw(st.sampled_from(['%s', '%s', '(%s) + x', '2 * (%s)', '(%s) * a', 'INT x:[-2,-1]. %s', 'INT x:[1/2,2]. %s',
